@@ -1,13 +1,44 @@
 """C04 - A live pod's IP is never released, re-keyed or handed on."""
 import plugincheck
 
-THEOREMS = []
-REFUTED = []
-KNOWN_FINDINGS = []
+THEOREMS = ["live_bound_owned", "winv_preserved", "live_ip_survives_step", "late_event_ignored"]
+REFUTED = ["live_bound_owned_refuted_late_event_old", "live_bound_owned_refuted_stale_lister_old",
+           "live_bound_owned_refuted_mixed_uid_old", "late_event_other_key"]
+KNOWN_FINDINGS = [
+    {"id": "F1", "status": "fixed", "commit": "53acf3f", "tag": "c04-late-event",
+     "what": "fixed: property=C04 53acf3f unbind never compared the event pod's UID with the UID the IP is stored for: a late "
+             "delete/finish event of an earlier same-named pod released / wiped / cloud-unassigned the live pod's IP (witness "
+             "live_bound_owned_refuted_late_event_old; scenarios F1-late-event-p0..p2)"},
+    {"id": "F2", "status": "fixed", "commit": "a9e7617", "tag": "c04-stale-lister",
+     "what": "fixed: property=C04 a9e7617 Bind stored the UID of the informer's stale pod object with the IP of the pod being bound, "
+             "so the old pod's delete event then passed the UID test (witness live_bound_owned_refuted_stale_lister_old; scenario "
+             "F2-stale-lister-bind)"},
+    {"id": "F13", "status": "fixed", "commit": "b734a7c", "tag": "c04-mixed-uid-key",
+     "what": "fixed: property=C04 b734a7c Bind checked the stored UID only of the IPs it was about to re-use: a pod re-created with "
+             "other requested ranges was bound while the key still held the previous pod's IP, and the next resync item for that "
+             "stale IP released EVERY IP of the key including the running pod's (found by the invariant proof; witness "
+             "live_bound_owned_refuted_mixed_uid_old; scenario F13-mixed-uid-key)"},
+]
+
+MANIFEST = {
+    "text": "Coq invariant proof over ALL well-formed histories of the scheduler-plugin model: live_bound_owned - in every "
+            "reachable world every IP in the binding annotation of a live (existing, not finished) pod is allocated under that "
+            "pod's key and stored for that pod's UID, and no IP of its key is stored for another incarnation; winv_preserved (the "
+            "induction step for EVERY kind of operation: delete/finish events of earlier same-named pods in any order and "
+            "multiplicity, resync items, API release requests, pod-IP sync, reloads and restarts that keep the IP, filter and bind "
+            "with arbitrary informer lag and one clean fault anywhere); live_ip_survives_step; late_event_ignored (an event of an "
+            "earlier pod of the same key changes neither the tables nor the provider state while a live bound pod of that key "
+            "exists). The three defects the proof attempt exposed (F1, F2, F13) are repaired in /repo; their refutations are proved "
+            "for the old flags. Tied to the code by replaying scenario + random histories on the real FloatingIPPlugin vs the model "
+            "step by step and by evaluating mon_owned (the predicate `owned`) on the implementation's dumps after every step.",
+    "note": "trusted: Coq kernel (no axioms); harness fakes (API server incl. pods/binding semantics, listers as informer caches "
+            "updated only by explicit informer steps, recording provider); section atomicity (DESIGN.md section 5); histories are "
+            "those of wf_op (Proofs/PluginInv.v); the cloud-provider half (never asked to unassign) is C10's cloud_live",
+}
 
 
 def run(ctx):
-    ctx.cov["rule"] = "wip"
+    ctx.cov["rule"] = plugincheck.RULE_COMMON + "; monitor: the predicate `owned` (every annotated IP of a live bound pod allocated under its key for its UID; no IP of the key stored for another UID) after every step of the well-formed prefix"
     plugincheck.run(ctx, "C04", THEOREMS, REFUTED, plugincheck.mon_c04)
 
 
